@@ -5,8 +5,9 @@
  * Oracle: unsigned __int128 arithmetic and bit-by-bit loops written here, compared with every helper of
  * <aws/common/math.h> and with aws_timestamp_convert[_u64], for FOUR implementations side by side
  * (c16_variant_{sel,ovf,asm,fb}.c: what the build selects, __builtin_*_overflow, x86-64 inline assembly,
- * portable C), each in two compilation contexts (thin wrapper / everything inlined into one loop), the
- * whole executable being built three times (-O0, -O2, -O3: one stage each).
+ * portable C), each in three compilation contexts (thin wrapper / everything inlined into one loop / the
+ * add and mul helpers inlined between two register barriers that keep 13 by-stander values in registers),
+ * the whole executable being built three times (-O0, -O2, -O3: one stage each).
  *
  * A case is a BLOCK of up to 4096 operand tuples of one kind:
  *   bin64    pairs (a,b) of 64-bit operands: add/mul/sub saturating+checked for u64 and size_t,
@@ -800,6 +801,41 @@ static void check_conv(const struct c16_variant *v, const char *ctx, int unit, u
     }
 }
 
+/* pressure context (c16_variant.h): value, overflow flag, and the eleven by-standers must come back unchanged */
+static const uint64_t s_kin[C16_NPRESS] = {0x9E3779B97F4A7C15ULL, 0xBF58476D1CE4E5B9ULL, 0x94D049BB133111EBULL, 0xD6E8FEB86659FD93ULL,
+                                           0xCA5A826395121157ULL, 0x2545F4914F6CDD1DULL, 0x0123456789ABCDEFULL, 0xFEDCBA9876543210ULL,
+                                           0x5555AAAA3333CCCCULL, 0x0F0F0F0FF0F0F0F0ULL, 0x8000000000000001ULL};
+
+static void check_press(const struct c16_variant *v, int pk, const char *helper, uint64_t a, uint64_t b, uint64_t c, bool is_chk,
+                        bool ovf, uint64_t want) {
+    struct c16_opress o;
+    memset(&o, 0x5A, sizeof(o));
+    v->press[pk](a, b, c, s_kin, &o);
+    for (int i = 0; i < C16_NPRESS; ++i) {
+        if (o.kout[i] != s_kin[i]) {
+            viol(v, "pressure", helper, "register-clobbered",
+                 "aws_%s(0x%llx, 0x%llx%s): by-stander value %d held in a register across the inlined helper changed from 0x%llx to "
+                 "0x%llx",
+                 helper, (unsigned long long)a, (unsigned long long)b, pk == P_CONV_U64 ? ", ..." : "", i,
+                 (unsigned long long)s_kin[i], (unsigned long long)o.kout[i]);
+            break;
+        }
+    }
+    if (is_chk) {
+        if ((o.rc != AWS_OP_SUCCESS) != ovf || (ovf && o.rc != AWS_OP_ERR)) {
+            viol(v, "pressure", helper, ovf ? "overflow-not-reported" : "false-overflow", "aws_%s(0x%llx, 0x%llx) returned %d, %s",
+                 helper, (unsigned long long)a, (unsigned long long)b, o.rc, ovf ? "exact result does not fit" : "exact result fits");
+        } else if (!ovf && o.val != want) {
+            viol(v, "pressure", helper, "result", "aws_%s(0x%llx, 0x%llx) succeeded with *r=0x%llx, expected 0x%llx", helper,
+                 (unsigned long long)a, (unsigned long long)b, (unsigned long long)o.val, (unsigned long long)want);
+        }
+    } else if (o.val != want) {
+        viol(v, "pressure", helper, ovf ? "saturation" : "value", "aws_%s(0x%llx, 0x%llx%s) = 0x%llx, expected 0x%llx", helper,
+             (unsigned long long)a, (unsigned long long)b, pk == P_CONV_U64 ? ", ..." : "", (unsigned long long)o.val,
+             (unsigned long long)want);
+    }
+}
+
 /* ------------------------------------------------------------------------------------------ block runners */
 static uint64_t s_a[BLOCK], s_b[BLOCK], s_c[BLOCK];
 static uint32_t s_a32[BLOCK], s_b32v[BLOCK];
@@ -851,10 +887,14 @@ static void run_bin64(size_t n) {
                     o.mm[k] = v->mm64[k](a, b);
                 }
                 check64(v, "thin", a, b, &ref[i], &o);
+                check_press(v, P_ADD_U64_SAT, "add_u64_saturating", a, b, 0, false, ref[i].ovf[0], ref[i].sat[0]);
+                check_press(v, P_ADD_U64_CHK, "add_u64_checked", a, b, 0, true, ref[i].ovf[0], ref[i].exact[0]);
+                check_press(v, P_MUL_U64_SAT, "mul_u64_saturating", a, b, 0, false, ref[i].ovf[1], ref[i].sat[1]);
+                check_press(v, P_MUL_U64_CHK, "mul_u64_checked", a, b, 0, true, ref[i].ovf[1], ref[i].exact[1]);
             }
         }
     }
-    s_cnt_helper_evals += (uint64_t)n * (NVAR * 2 * (2 * S64_N + M64_N) + 4);
+    s_cnt_helper_evals += (uint64_t)n * (NVAR * (2 * (2 * S64_N + M64_N) + 4) + 4);
 }
 
 static void run_bin32(size_t n) {
@@ -894,10 +934,14 @@ static void run_bin32(size_t n) {
                     o.mm[k] = v->mm32[k](a, b);
                 }
                 check32(v, "thin", a, b, &ref[i], &o);
+                check_press(v, P_ADD_U32_SAT, "add_u32_saturating", a, b, 0, false, ref[i].ovf[0], ref[i].sat[0]);
+                check_press(v, P_ADD_U32_CHK, "add_u32_checked", a, b, 0, true, ref[i].ovf[0], ref[i].exact[0]);
+                check_press(v, P_MUL_U32_SAT, "mul_u32_saturating", a, b, 0, false, ref[i].ovf[1], ref[i].sat[1]);
+                check_press(v, P_MUL_U32_CHK, "mul_u32_checked", a, b, 0, true, ref[i].ovf[1], ref[i].exact[1]);
             }
         }
     }
-    s_cnt_helper_evals += (uint64_t)n * NVAR * 2 * (2 * S32_N + M32_N);
+    s_cnt_helper_evals += (uint64_t)n * NVAR * (2 * (2 * S32_N + M32_N) + 4);
 }
 
 static void check_fp(const struct c16_variant *v, const char *name, double a, double b, double got, bool is_min) {
@@ -1017,10 +1061,11 @@ static void run_conv(size_t n, int unit) {
                 }
                 o.rem = rem;
                 check_conv(v, "thin", unit, t, of, nf, &ref[i], &o);
+                check_press(v, P_CONV_U64, "timestamp_convert_u64", t, of, nf, false, ref[i].exact > (u128) ~(uint64_t)0, ref[i].res);
             }
         }
     }
-    s_cnt_helper_evals += (uint64_t)n * NVAR * 2 * 2;
+    s_cnt_helper_evals += (uint64_t)n * NVAR * (2 * 2 + 1);
 }
 
 /* ------------------------------------------------------------------------------------------ one case */
